@@ -114,6 +114,24 @@ theorem F8.setNow (g : Gw) (t : Nat) : F8 g (g.setNow t) := F8.of_eq rfl rfl rfl
 theorem F8.clearBuffer (g : Gw) : F8 g g.clearBuffer := F8.of_eq rfl rfl rfl
 theorem F8.cancelSleepPinger (g : Gw) : F8 g g.cancelSleepPinger := F8.of_eq rfl rfl rfl
 theorem F8.startSleepPinger (g : Gw) (d : UInt16) : F8 g (g.startSleepPinger d) := F8.of_eq rfl rfl rfl
+theorem F8.armSleepPinger (g : Gw) (d : UInt16) : F8 g (g.armSleepPinger d) := by
+  unfold Gw.armSleepPinger
+  split
+  · exact F8.cancelSleepPinger g
+  · exact (F8.cancelSleepPinger g).trans (F8.startSleepPinger _ _)
+theorem F8.pingBroker (g : Gw) : F8 g g.pingBroker := by
+  unfold Gw.pingBroker
+  have h0 : F8 g ({ g with ownPings := g.ownPings + 1 } : Gw) := F8.of_eq rfl rfl rfl
+  exact h0.trans (F8.mqttSend _ _ rfl)
+theorem F8.keepBrokerAlive (g : Gw) : F8 g g.keepBrokerAlive := by
+  unfold Gw.keepBrokerAlive
+  split
+  · exact F8.refl g
+  · split
+    · split
+      · exact F8.refl g
+      · exact F8.pingBroker g
+    · exact F8.pingBroker g
 
 theorem F8.newTopicId (g : Gw) : F8 g g.newTopicId.2 := by
   refine F8.of_eq ?_ (newTopicId_outs g) ?_
@@ -349,16 +367,13 @@ theorem F8.handleConnect (g : Gw) (will clean : Bool) (dur : UInt16) (cid : Byte
 theorem F8.handlePingreq (g : Gw) : F8 g g.handlePingreq := by
   unfold Gw.handlePingreq
   split
-  · exact (((F8.setSt g _).trans (F8.flushBuffer _)).trans (F8.snSend _ _ _)).trans (F8.setSt _ _)
+  · exact ((((F8.setSt g _).trans (F8.flushBuffer _)).trans (F8.snSend _ _ _)).trans (F8.setSt _ _)).trans (F8.armSleepPinger _ _)
   · exact F8.mqttSend g _ rfl
 
 theorem F8.handleSleep (g : Gw) (d : UInt16) : F8 g (g.handleSleep d) := by
   unfold Gw.handleSleep
-  have h1 : F8 g (g.cancelSleepPinger.maybeSleepPinger d) := by
-    unfold Gw.maybeSleepPinger
-    split
-    · exact (F8.cancelSleepPinger g).trans (F8.startSleepPinger _ _)
-    · exact F8.cancelSleepPinger g
+  have h0 : F8 g ({ g with sleepDur := d } : Gw) := F8.of_eq rfl rfl rfl
+  have h1 : F8 g (({ g with sleepDur := d } : Gw).armSleepPinger d) := h0.trans (F8.armSleepPinger _ _)
   have h2 : ∀ x : Gw, F8 x x.clearBufferUnlessAsleep := by
     intro x; unfold Gw.clearBufferUnlessAsleep; split
     · exact F8.clearBuffer x
@@ -421,7 +436,7 @@ theorem F8.firePing (g : Gw) (i : Nat) : F8 g (g.firePing i) := by
   unfold Gw.firePing
   have h0 : F8 g ({ g with pingers := g.pingers.mapIdx (fun j (p : Pinger) =>
       if j = i then { p with next := p.next + p.period } else p) } : Gw) := F8.of_eq rfl rfl rfl
-  exact h0.trans (F8.mqttSend _ _ rfl)
+  exact h0.trans (F8.pingBroker _)
 
 theorem F8.fireDue (g : Gw) (d : Due) : F8 g (g.fireDue d) := by
   unfold Gw.fireDue
